@@ -52,9 +52,18 @@ type typeTracer struct {
 func newTypeTracer(pr *progRun, checkVal bool) *typeTracer {
 	tt := &typeTracer{pr: pr, checkVal: checkVal, nonTriv: map[string]bool{}, skipExpr: map[ast.Expr]bool{}, tsClause: map[*ast.Ident]int{}}
 	// call targets and instantiation bases are compared through the call's result, not by themselves
+	// a generic function used as a value is instantiated by its context; go/types records the
+	// instantiated type on the identifier, the builder instantiates when the value is matched
+	for id := range pr.Src.Info.Instances {
+		tt.skipExpr[id] = true
+	}
 	for _, f := range pr.Files {
 		ast.Inspect(f, func(n ast.Node) bool {
 			switch x := n.(type) {
+			case *ast.SelectorExpr:
+				if _, ok := pr.Src.Info.Instances[x.Sel]; ok {
+					tt.skipExpr[x] = true
+				}
 			case *ast.CallExpr:
 				tt.skipExpr[unparenE(x.Fun)] = true
 			case *ast.IndexExpr:
